@@ -10,6 +10,7 @@ git -C $W apply -R $D/patch.diff
 echo "== demo WITHOUT change"; (bash ./build.sh >/dev/null 2>&1; ./demo > $D/demo_without_change.out 2>&1; echo "exit=$?" | tee -a $D/demo_without_change.out)
 git -C $W apply $D/patch.diff
 cd /verif
+exec 9>/verif/build/.repo.lock; flock 9   # one modifier of /repo's working tree at a time (shared with revert_campaign.py)
 git -C /repo apply $D/patch.diff || { echo "PATCH DOES NOT APPLY"; exit 2; }
 for c in $CHECKS; do
   echo "== ./vf check $c (quick) with the change applied"
@@ -17,4 +18,5 @@ for c in $CHECKS; do
   grep -a "^VIOLATION\|key=\|^OK\|^INCONC" $D/check_$c.out | head -12
 done
 git -C /repo checkout -- .
+flock -u 9
 git -C /repo status --short | head -3
